@@ -1197,3 +1197,74 @@ def skips_only_via(body, effect_bbs, edge_pred, start=0):
     rets = body.exits(("return",))
     r = body.reachable([start], unwind=False, avoid=list(effect_bbs), avoid_edges=edges)
     return not [x for x in rets if x in r], edges
+
+
+# ------------------------------------------------------------------ check-then-act across two critical sections
+class LockSections:
+    """Interprocedural summary "this call enters (and leaves) a critical section of lock family L":
+    a direct `is_lock(t)` call, or a call of a local function / closure argument whose body contains such a call.
+    `check_then_act(body)` lists pairs (s1, s2) of section sites in one body where s2 is reachable from s1 and
+    s2's execution is decided by a branch whose condition derives from s1's result - a decision taken in one
+    critical section acted on in another (the state may change in between)."""
+
+    def __init__(self, prog, is_lock):
+        self.prog = prog
+        self.is_lock = is_lock
+        self._sum = {}
+
+    def locks(self, body, stack=()):
+        """True iff executing `body` may acquire the lock."""
+        if body.key in self._sum:
+            return self._sum[body.key]
+        if body.key in stack:
+            return False
+        r = False
+        for bb, t in body.calls():
+            if self.site(body, t, stack + (body.key,)):
+                r = True
+                break
+        self._sum[body.key] = r
+        return r
+
+    def site(self, body, t, stack=()):
+        if self.is_lock(t):
+            return True
+        cb = self.prog.body_for_callee(t["callee"])
+        if cb is not None and self.locks(cb, stack):
+            return True
+        for a in t["args"]:
+            l = op_local(a)
+            if l is None:
+                continue
+            for ck in body.local_ty(l).get("closures", []):
+                cbs = self.prog.by_key.get(strip_generics(ck))
+                if cbs and self.locks(cbs[0], stack):
+                    return True
+        return False
+
+    def sites(self, body):
+        return [(bb, t) for bb, t in body.calls() if not body.blocks[bb].cleanup and self.site(body, t, (body.key,))]
+
+    def check_then_act(self, body):
+        out = []
+        ss = self.sites(body)
+        if len(ss) < 2:
+            return out, ss
+        for bb1, t1 in ss:
+            after = body.successors_reach(bb1, unwind=False)
+            for bb2, t2 in ss:
+                if bb2 == bb1 or bb2 not in after:
+                    continue
+                for g in switch_guards(body, bb2):
+                    if g["bb"] not in after and g["bb"] != bb1:
+                        continue
+                    t = body.blocks[g["bb"]].term
+                    sl = Slice(body).run(t["discr"])
+                    if any(ct is t1 for _k, _b, ct in sl["calls"]):
+                        # both arms reach s2 -> not a decision
+                        all_labels = set(g["listed"]) | {"otherwise"}
+                        if set(g["allowed"]) >= all_labels:
+                            continue
+                        out.append((bb1, t1, bb2, t2, g["bb"]))
+                        break
+        return out, ss
